@@ -1,5 +1,6 @@
 """C12 — decoded content does not depend on how the stream chunks its reads (DESIGN.md §5 C12, A5 b–e)."""
 from .. import a5
+import re
 from .. import cfg as C
 from .. import rules as R
 
@@ -12,7 +13,8 @@ EXPLANATION = (
     "of one fill_buf window) — the last is a violation because a source delivering one byte per read makes the window "
     "shorter than k; (R4) the hand-written 'read N or EOF' helpers return Ok after the loop only on the "
     "`bytes_read == 0` or `buffer filled` edges, so a partial record is UnexpectedEof; (R5) line readers strip LF/CR "
-    "only after read_until/read_line returned and only on the true edge of an ends_with test.")
+    "only after read_until/read_line returned and only on the true edge of an ends_with test."
+    " (R4, extended) the completeness edge may be a counter-vs-length comparison, and that counter must be accumulated, never overwritten, inside the loop; (R6) CR of a CRLF split across two fill_buf windows: the CR test of every LF scanner is window-independent or on the accumulated buffer (found the genuine defect F16, repaired); (R7) copy before consume: a scanner that appends window bytes to a destination does so on every path that consumes a non-constant amount.")
 ASSUMPTIONS = [
     "std/tokio read_exact, read_until, read_line, BufReader reassemble short reads and retry Interrupted (library contract)",
     "the classification is structural: it proves the necessary part (no site assumes a window or a full read), not content equality",
@@ -66,6 +68,40 @@ def run(ctx):
         else:
             ctx.ok("C12.R3", s["fn"], s["class"], f.loc(s["block"]))
     ctx.floor("C12.R3", "fill_buf sites", len(fsites), FILL_BUF_FLOOR)
+
+    ctx.rule("C12.R6", "A5d two-byte terminator across windows: a scanner that looks for LF in a fill_buf window and strips a CR tests for the CR "
+                      "on a path that does not require the LF to be in the same window (or on the accumulated buffer)")
+    n6 = 0
+    for s6 in a5.crlf_window_sites(fb):
+        if not re.search(r".", s6["fn"]):
+            continue
+        n6 += 1
+        f6 = fb.fns[s6["fn"]]
+        ctx.saw_fn(f6)
+        if s6["ok"]:
+            ctx.ok("C12.R6", s6["fn"] + " :: CR handled independently of the window", "%d CR test(s), %d window-independent" % (len(s6["tests"]), len(s6["free"])), f6.loc(s6["free"][0]))
+        else:
+            ctx.violation("C12.R6", "C12.R6/cr-only-with-lf-in-window/" + f6.root,
+                          "%s strips the CR of a CRLF only in the branch where memchr found the LF in the same fill_buf window: when a refill "
+                          "boundary falls between CR and LF the CR is kept as data" % f6.root, f6.loc(s6["tests"][0]))
+    ctx.floor("C12.R6", "LF scanners with CR handling", n6, 5)
+
+    ctx.rule("C12.R7", "A5d copy before consume: a fill_buf scanner that copies window bytes to a destination copies them on every path "
+                      "that consumes a non-constant amount (a field continuing in the next window must not lose its first part)")
+    n7 = 0
+    for s7 in a5.copy_before_consume_sites(fb):
+        if not re.search(r".", s7["fn"]):
+            continue
+        n7 += 1
+        f7 = fb.fns[s7["fn"]]
+        ctx.saw_fn(f7)
+        if s7["ok"]:
+            ctx.ok("C12.R7", s7["fn"] + " :: every consuming path copies the window first", "%d append site(s)" % len(s7["appends"]), f7.loc())
+        else:
+            ctx.violation("C12.R7", "C12.R7/consume-without-copy/" + f7.root,
+                          "%s consumes window bytes on a path that does not append them to the destination although other paths do: a field that "
+                          "continues in the next fill_buf window loses everything before the last refill" % f7.root, f7.loc(s7["bad"]))
+    ctx.floor("C12.R7", "copying fill_buf scanners", n7, 6)
 
     ctx.rule("C12.R4", "A5e read-N-or-EOF helpers: Ok after the loop only when nothing or everything was read")
     for key in ("noodles_bam::io::reader::record::read_exact_or_eof",
@@ -136,6 +172,43 @@ def eof_or_partial(ctx, rule, f, allow_zero):
                 allowed.add((b, f_t))
             if kind == "Eq" and (C.op_const(ops[1]) or {}).get("v") == 0:
                 allowed.add((b, t_t))
+    # `bytes_read < buf.len()` style completeness tests (cursor idiom): the edge on which counter >= len
+    def is_len(op):
+        if R.derives_from_call(f, op, R.mk_pred(r"slice::<impl \[T\]>::len$|Vec::<T, A>::len$")):
+            return True
+        l = C.op_local(op)
+        d = C.single_def(f, l) if l is not None else None
+        return d is not None and d[0] == "=" and (d[3][0] == "len" or (d[3][0] == "un" and d[3][1] == "PtrMetadata"))
+    for b, kind, ops, t_t, f_t in R._cmp_switches(f):
+        if b in body or len(ops) < 2:
+            continue
+        l0, l1 = is_len(ops[0]), is_len(ops[1])
+        if l0 == l1:
+            continue
+        if l1:      # counter ⋈ len
+            edge = {"Lt": f_t, "Ge": t_t, "Eq": t_t, "Ne": f_t}.get(kind)
+        else:       # len ⋈ counter
+            edge = {"Gt": f_t, "Le": t_t, "Eq": t_t, "Ne": f_t}.get(kind)
+        if edge is not None:
+            allowed.add((b, edge))
+            # the counter compared with the length is the read cursor: inside the loop it must be accumulated (c = c + n), never
+            # overwritten (c = n), or a transfer that arrives in two pieces is measured by its last piece only
+            cl = _root_var(f, ops[0] if l1 else ops[1])
+            if cl is not None:
+                for df in C.defs(f).get(cl, []):
+                    if df[0] != "=" or df[1] not in body:
+                        continue
+                    rv = df[3]
+                    src = rv
+                    if rv[0] == "use" and rv[1][0] in ("c", "m") and len(rv[1][1][1]) == 1:
+                        d2 = C.single_def(f, rv[1][1][0])        # `t = AddWithOverflow(c, n); c = move t.0`
+                        src = d2[3] if d2 is not None and d2[0] == "=" else rv
+                    acc = src[0] == "bin" and src[1].startswith("Add") and any(_root_var(f, o) == cl for o in (src[2], src[3]))
+                    if not acc:
+                        ctx.violation(rule, "%s/cursor-overwritten/%s" % (rule, f.key),
+                                      "%s overwrites its read cursor inside the read loop instead of advancing it: after a short read the "
+                                      "next read starts at the wrong offset and the completeness test measures only the last piece" % f.key,
+                                      f.loc(df[1]))
     ex = [e for e in C.success_exit_blocks(f)]
     if not allowed:
         ctx.violation(rule, "%s/no-guard/%s" % (rule, f.key), "%s: no post-loop completeness test found" % f.key, f.loc())
@@ -154,3 +227,19 @@ def eof_or_partial(ctx, rule, f, allow_zero):
             ctx.ok(rule, f.key, "Ok only via %d completeness edge(s); partial transfer is UnexpectedEof" % len(allowed), f.loc())
         else:
             ctx.violation(rule, "%s/no-unexpected-eof/%s" % (rule, f.key), "%s no longer reports UnexpectedEof" % f.key, f.loc())
+
+
+def _root_var(f, op, depth=0):
+    """The user variable (multi-assignment local) an operand is a copy of."""
+    l = C.op_local(op)
+    while l is not None and depth < 8:
+        depth += 1
+        ds = [x for x in C.defs(f).get(l, []) if x[0] in ("=", "call")]
+        if len(ds) != 1 or ds[0][0] != "=":
+            return l
+        rv = ds[0][3]
+        if rv[0] == "use" and rv[1][0] in ("c", "m") and not rv[1][1][1]:
+            l = rv[1][1][0]
+            continue
+        return l
+    return l
